@@ -35,7 +35,7 @@ def gen_defs(rng, mode):
             pos = fd["start"] + fd["size"]
         if len(fs) > 1 and rng.random() < 0.3:
             rng.shuffle(fs)   # declared in an order different from the columns; the layout (and the record width) is unchanged
-        out.append({"ident": ident, "digits": digits, "fields": fs, "delim": rng.choice([";", ",", "|"]) if mode == "delim" else None})
+        out.append({"ident": ident, "digits": digits, "fields": fs, "delim": rng.choice([";", ",", "|", "\t", "\t"]) if mode == "delim" else None})
     return out
 
 
